@@ -548,7 +548,17 @@ class PDFStandardSecurityHandlerV4(PDFStandardSecurityHandler):
             modes.CBC(initialization_vector),
             backend=default_backend(),
         )  # type: ignore
-        return cipher.decryptor().update(ciphertext)  # type: ignore
+        return self._unpad(cipher.decryptor().update(ciphertext))  # type: ignore
+
+    @staticmethod
+    def _unpad(data: bytes) -> bytes:
+        """Remove the PKCS#5 padding that AES-encrypted strings and streams
+        carry (PDF 32000-1:2008, 7.6.2)."""
+        if data:
+            n = data[-1]
+            if 1 <= n <= 16 and data.endswith(bytes((n,)) * n):
+                return data[:-n]
+        return data
 
 
 class PDFStandardSecurityHandlerV5(PDFStandardSecurityHandlerV4):
@@ -672,7 +682,7 @@ class PDFStandardSecurityHandlerV5(PDFStandardSecurityHandlerV4):
             modes.CBC(initialization_vector),
             backend=default_backend(),
         )  # type: ignore
-        return cipher.decryptor().update(ciphertext)  # type: ignore
+        return self._unpad(cipher.decryptor().update(ciphertext))  # type: ignore
 
 
 class PDFDocument:
